@@ -144,10 +144,33 @@ def persistence(ctx):
                 return
 
 
+def library_default(ctx):
+    """an evaluator built without a handler reports the documented default values, whatever handlers (complete or for
+    some metrics only) have been constructed in the process before"""
+    z = np.zeros((4, 6), np.uint8)
+    a = z.copy()
+    a[1:3, 1:4] = 1
+    metrics = ["DSC", "IOU", "ASSD", "RVD"]
+    ev = pan.make_evaluator({"input": "MATCHED_INSTANCE", "matcher": None, "metrics": metrics, "global": [], "handler": None})
+    for name, sc, p, q in (("empty_pred", 1, z, a), ("empty_ref", 2, a, z), ("no_instances", 0, z, z)):
+        with np.errstate(all="ignore"):
+            out = pan.evaluate(ev, p.copy(), q.copy())
+        r = pan.read_result(out[next(iter(out))][0], metrics)
+        ctx.count("C08.zero_tp_judged")
+        ctx.count("C08.library_default_rechecks")
+        for m in metrics:
+            want = ref.EDGE_VALUE[ref.DEFAULT_HANDLER[m][sc]]
+            if not pan.same(r[NAMES[m]], want):
+                ctx.viol("aggregate_not_handler_value", {"scenario": name, "handler": "library default", "metric": m, "got": r[NAMES[m]], "expected": want},
+                         features={"scenario": name, "input": "MATCHED_INSTANCE", "metric": m, "default_handler": True})
+                return
+
+
 def run(case, ctx):
     fam, i = case["fam"], case["i"]
     if getattr(ctx, "_persist8", None) is None or ctx.cases_run % 25 == 0:
         persistence(ctx)
+        library_default(ctx)
     if fam == "independence":
         return independence(ctx, i)
     std = case["std"]
